@@ -3,7 +3,10 @@ package props
 
 import (
 	"bufio"
+	"crypto/sha1"
+	"encoding/base64"
 	"fmt"
+	"io"
 	"hash/fnv"
 	"math/rand"
 	"net"
@@ -125,7 +128,7 @@ type tokBackend struct {
 	inflight int
 	maxIn    int
 	// Optional override: return true if it wrote the response itself.
-	Override func(req *rawhttp.Message, conn net.Conn) (handled, keep bool)
+	Override func(req *rawhttp.Message, conn net.Conn, br *bufio.Reader) (handled, keep bool)
 	KeepReq  bool
 }
 
@@ -158,7 +161,7 @@ func (b *tokBackend) handle(req *rawhttp.Message, reqErr error, conn net.Conn, b
 	b.mu.Unlock()
 	defer func() { b.mu.Lock(); b.inflight--; b.mu.Unlock() }()
 	if b.Override != nil {
-		if handled, keep := b.Override(req, conn); handled {
+		if handled, keep := b.Override(req, conn, br); handled {
 			return keep
 		}
 	}
@@ -293,4 +296,82 @@ func hookHits(r *core.Run, name string) map[string]int {
 		}
 	}
 	return out
+}
+
+// wsEcho is a minimal websocket server side for scripted raw backends: it
+// answers the handshake and echoes every text/binary message as a text
+// message "echo:<last path segment>:<payload>" until the peer closes (the
+// path segment identifies the connection, so cross-wired sessions show).
+func wsEcho(req *rawhttp.Message, conn net.Conn, br *bufio.Reader) {
+	key := ""
+	if v := req.Get("Sec-WebSocket-Key"); len(v) > 0 {
+		key = v[0]
+	}
+	h := sha1.Sum([]byte(key + "258EAFA5-E914-47DA-95CA-C5AB0DC85B11"))
+	var w rawhttp.Builder
+	w.Line("HTTP/1.1 101 Switching Protocols").Field("Upgrade", "websocket").Field("Connection", "Upgrade").
+		Field("Sec-WebSocket-Accept", base64.StdEncoding.EncodeToString(h[:])).End()
+	if _, err := conn.Write(w.Bytes()); err != nil {
+		return
+	}
+	conn.SetDeadline(time.Now().Add(10 * time.Minute))
+	tag := req.Target
+	if i := strings.IndexByte(tag, '?'); i >= 0 {
+		tag = tag[:i]
+	}
+	tag = tag[strings.LastIndexByte(tag, '/')+1:]
+	send := func(op byte, p []byte) error {
+		hdr := []byte{0x80 | op}
+		switch {
+		case len(p) < 126:
+			hdr = append(hdr, byte(len(p)))
+		case len(p) < 65536:
+			hdr = append(hdr, 126, byte(len(p)>>8), byte(len(p)))
+		default:
+			hdr = append(hdr, 127, 0, 0, 0, 0, byte(len(p)>>24), byte(len(p)>>16), byte(len(p)>>8), byte(len(p)))
+		}
+		_, err := conn.Write(append(hdr, p...))
+		return err
+	}
+	for {
+		var h2 [2]byte
+		if _, err := io.ReadFull(br, h2[:]); err != nil {
+			return
+		}
+		op := h2[0] & 0x0f
+		n := int(h2[1] & 0x7f)
+		if n == 126 {
+			var e [2]byte
+			io.ReadFull(br, e[:])
+			n = int(e[0])<<8 | int(e[1])
+		} else if n == 127 {
+			var e [8]byte
+			io.ReadFull(br, e[:])
+			n = int(e[4])<<24 | int(e[5])<<16 | int(e[6])<<8 | int(e[7])
+		}
+		var mask [4]byte
+		if h2[1]&0x80 != 0 {
+			io.ReadFull(br, mask[:])
+		}
+		p := make([]byte, n)
+		if _, err := io.ReadFull(br, p); err != nil {
+			return
+		}
+		if h2[1]&0x80 != 0 {
+			for i := range p {
+				p[i] ^= mask[i%4]
+			}
+		}
+		switch op {
+		case 1, 2:
+			if send(1, append([]byte("echo:"+tag+":"), p...)) != nil {
+				return
+			}
+		case 8:
+			send(8, p)
+			return
+		case 9:
+			send(10, p)
+		}
+	}
 }
